@@ -136,6 +136,7 @@ fn child_main(args: &[String]) -> i32 {
     match args[0].as_str() {
         "run" => {
             let (id, mut cfg, runs) = parse_run(args);
+            supervisor::start_watchdog();
             with_scenario!(id.as_str(), S => {
                 cfg.runs = runs.unwrap_or_else(|| S::default_runs(cfg.tier));
                 runner::run::<S>(&cfg)
@@ -278,10 +279,19 @@ fn main() {
             let doc = read_doc(&path);
             let id = doc["property"].as_str().unwrap_or("?").to_string();
             let crash_file = format!("{verif}/replays/.crash-{}", std::process::id());
-            match supervisor::spawn_child(&args, &crash_file, false) {
+            match supervisor::spawn_child_limited(
+                &args,
+                &crash_file,
+                false,
+                Some(Duration::from_millis(supervisor::HANG_LIMIT_MS / 4)),
+            ) {
                 ChildEnd::Exit(c) => std::process::exit(c),
                 ChildEnd::Crash { signal, .. } => {
-                    println!("replay: the process died with signal {signal} while executing the trace");
+                    if signal == supervisor::SIG_HANG {
+                        println!("replay: executing the trace did not terminate");
+                    } else {
+                        println!("replay: the process died with signal {signal} while executing the trace");
+                    }
                     println!("VIOLATION property={id} replay={path}");
                     std::process::exit(1);
                 }
